@@ -48,6 +48,15 @@ def main():
         raise KeyError(name)
 
     def jsonable(v):
+        """canonical, order-independent, JSON-able rendering of a result (dict insertion order is not part of a value)"""
+        if isinstance(v, dict):
+            return {"__dict__": sorted([[jsonable(k), jsonable(x)] for k, x in v.items()], key=lambda kv: json.dumps(kv[0], sort_keys=True))}
+        if isinstance(v, (list, tuple)):
+            return [jsonable(x) for x in v]
+        if isinstance(v, (set, frozenset)):
+            return {"__set__": sorted((jsonable(x) for x in v), key=lambda x: json.dumps(x, sort_keys=True))}
+        if isinstance(v, complex):
+            return {"__complex__": [v.real, v.imag]}
         try:
             json.dumps(v)
             return v
